@@ -255,6 +255,10 @@ def _exprs(n: int, labels_txt: List[str]):
     E.append((f'X[`{a}`:`{last}`:2]', lambda C, pos: C['X'][pos(a):pos(last) + 1:2]))
     E.append((f'X[:`{b}`]', lambda C, pos: C['X'][:pos(b) + 1]))
     E.append((f'X[`{b}`:]', lambda C, pos: C['X'][pos(b):]))
+    # backticked labels index whatever stands before the bracket: a parenthesised expression, the result of a helper
+    E.append((f'(X + W)[`{a}`]', lambda C, pos: C['X'][pos(a)] + C['W'][pos(a)]))
+    E.append((f'(X)[`{a}`:`{last}`]', lambda C, pos: C['X'][pos(a):pos(last) + 1]))
+    E.append((f'lead(X, 0)[`{b}`:]', lambda C, pos: C['X'][pos(b):]))
     if n >= 3:
         # positional slices keep their ordinary meaning wherever they appear
         E.append(('X[1:3]', lambda C, pos: C['X'][1:3]))
@@ -288,6 +292,9 @@ def typed_eval_scenario(cfg) -> List[str]:
     c.add_variable('K', [2 ** 53 + 1 + j for j in range(n)], dtype=int)
     c.add_variable('B', [j % 2 == 0 for j in range(n)], dtype=bool)
     c.add_variable('S', ['s%d' % j for j in range(n)], dtype='<U4')
+    for odd in ('size', 'index', 'values', 'copy'):      # legal names that are also attributes of the object
+        if odd not in c.index:
+            c.add_variable(odd, [10.5 + j for j in range(n)], dtype=float)
     for name in list(c.index):
         r = _run(lambda: c.eval(name))
         series = c[name]
